@@ -235,6 +235,65 @@ def job_gauss(n):
     return out
 
 
+def job_grid(arg):
+    """E1: trapz2d_points / simps2d_points of integrate.pyx executed from source on symbolic domain limits.
+    For each monomial x^p y^q the rule must be exact: sum_k alpha_k x_k^p y_k^q == int int x^p y^q  (p,q <= 1 trapezoid,
+    <= 3 Simpson), beta_k == 1, and the number of points is what the function documents."""
+    kind, nx, ny = arg
+    from ..sym import Sym, reset
+    from .. import cysym
+    from ..harness import decide_job
+    reset()
+    import os
+    M = cysym.Module(os.path.join(REPO, 'compmech/integrate/integrate.pyx'))
+    xmin, xmax, ymin, ymax = [Sym.var(n) for n in ('xmin', 'xmax', 'ymin', 'ymax')]
+    fn = M.ns['trapz2d_points' if kind == 'trapz' else 'simps2d_points']
+    xs, ys, al, be = fn(xmin, xmax, nx, ymin, ymax, ny)
+    obs = []
+    deg = 1 if kind == 'trapz' else 3
+    if kind == 'trapz':
+        npts = nx * ny
+    else:
+        ex, ey = nx + (nx % 2), ny + (ny % 2)
+        npts = (ex + 1) * (ey + 1)
+    obs.append(('%s(%d,%d)-npoints' % (kind, nx, ny), Sym.lift(len(xs)), Sym.lift(npts)))
+    for k in range(len(be)):
+        if not (isinstance(be[k], (int, float)) and be[k] == 1) and not (isinstance(be[k], Sym) and be[k].is_numeric() and be[k].n == 1):
+            obs.append(('%s(%d,%d)-beta[%d]' % (kind, nx, ny, k), be[k], 1))
+    one = Sym.lift(1)
+
+    def mom(lo, hi, p):
+        return (hi ** (p + 1) - lo ** (p + 1)) / (p + 1)
+    for p in range(deg + 1):
+        for q in range(deg + 1):
+            tot = Sym.lift(0)
+            for k in range(len(xs)):
+                tot = tot + al[k] * (Sym.lift(xs[k]) ** p) * (Sym.lift(ys[k]) ** q)
+            obs.append(('%s(%d,%d)-x^%dy^%d' % (kind, nx, ny, p, q), tot, mom(xmin, xmax, p) * mom(ymin, ymax, q)))
+    res = decide_job('quadrature-grids:%s' % kind, obs, [], timeout_ms=120000)
+    res['stats'] = M.stats.as_dict()
+    res['arg'] = arg
+    return res
+
+
+def replay_grid(kind, nx, ny):
+    """concrete replay through the compiled extension when it is current"""
+    from ..panelsym import so_is_current
+    if not so_is_current('compmech/integrate/integrate.pyx'):
+        return None
+    import compmech.integrate.integrate as I
+    fn = I.trapz2d_points if kind == 'trapz' else I.simps2d_points
+    xs, ys, al, be = [__import__('numpy').asarray(v) for v in fn(0.5, 2.0, nx, -1.0, 3.0, ny)]
+    deg = 1 if kind == 'trapz' else 3
+    worst = 0.0
+    for p in range(deg + 1):
+        for q in range(deg + 1):
+            got = float((al * xs ** p * ys ** q).sum())
+            ex = (2.0 ** (p + 1) - 0.5 ** (p + 1)) / (p + 1) * (3.0 ** (q + 1) - (-1.0) ** (q + 1)) / (q + 1)
+            worst = max(worst, abs(got - ex) / max(1.0, abs(ex)))
+    return worst
+
+
 def replay_table(lib, name, i, j, point):
     """concrete replay through the gcc-built table"""
     fn = getattr(lib, name)
@@ -281,6 +340,24 @@ def main():
     res = pmap(job_family, jobs)
     fres = job_functions(None)
     gres = pmap(job_gauss, list(range(2, 65)))
+    maxg = 8 if quick else 24
+    grids = [(k, nx, ny) for k in ('trapz', 'simps') for nx in range(2, maxg + 1) for ny in range(2, maxg + 1)
+             if (not quick and (nx <= 9 or ny <= 4 or nx == ny or (nx + ny + run.seed) % 5 == 0)) or (quick and (nx <= 5 or ny <= 3 or nx == ny))]
+    qres = pmap(job_grid, grids)
+    run.encoded('compmech/integrate/integrate.pyx', 'trapz_quad, trapz2d_points, simps2d_points')
+    run.bounds['trapezoid_simpson_grids'] = 'nx, ny in 2..%d (%d grids, incl. odd counts which Simpson rounds up); symbolic xmin,xmax,ymin,ymax; monomials up to bilinear / bicubic' % (maxg, len(grids))
+    for r in qres:
+        sats = run.absorb_job(r)
+        if sats:
+            kind, nx, ny = r['arg']
+            worst = replay_grid(kind, nx, ny)
+            rep = {'grid': r['arg'], 'failed': [s_['name'] for s_ in sats][:8], 'compiled_replay_max_rel_error': worst,
+                   'note': 'compiled extension not current: source-level finding only' if worst is None else ''}
+            if worst is not None and worst < 1e-9:
+                run.harness_error('grid violation %s did not replay on the compiled extension' % (r['arg'],))
+                continue
+            run.violation('%s2d_points/%s' % (kind, sats[0]['name'].split('-', 1)[1].split('[')[0]),
+                          '%s2d_points(nx=%d, ny=%d): %s fails (e.g. weights do not integrate x^p y^q exactly)' % (kind, nx, ny, sats[0]['name']), rep)
     lib = None
     tmp = None
     viol = []
@@ -375,8 +452,7 @@ def main():
     v, _, _ = box_query(impl + ex, TOL * ex.abs_coef_sum())
     run.canary(v == 'sat', 'integral_ffxi(0,1) with sign flipped')
     run.extra['exhaustive'] = not quick
-    run.outside = ['grids of trapezoid/Simpson rules (decided under C10b in the integrate.pyx part, see evidence of this run if present)',
-                   'floating point evaluation error']
+    run.outside = ['trapezoid/Simpson grids above the bound (the functions are loops over nx, ny: same code)', 'floating point evaluation error']
     return run.finish()
 
 
